@@ -1,6 +1,8 @@
 """C08 — the API is total: every text and cursor position gets an answer"""
 import contracts.totality  # noqa
 import contracts.linter  # noqa
+import contracts.scopes  # noqa  (the scope-entry table is computed without raising)
+import contracts.tables  # noqa
 import contracts.memo  # noqa  (re-entrancy guard of EvalCtx.evaluate)
 
 INFO = {'not_decided': ['termination (no decreases measure across memoised mutual recursion evaluate -> resolve -> _attrs -> bases -> evaluate)',
